@@ -8,6 +8,7 @@ import (
 	"math/rand"
 	"os"
 	"sort"
+	"time"
 
 	"github.com/canopy-network/canopy/fsm"
 	"github.com/canopy-network/canopy/lib"
@@ -162,6 +163,9 @@ func newLedgerSim(run int, out *json.Encoder, big64, empty bool) (*ledgerSim, er
 	}
 	n.c.Mempool.FSM.Config.InitialTokensPerBlock = n.c.FSM.Config.InitialTokensPerBlock
 	n.c.Mempool.FSM.Config.BlocksPerHalvening = n.c.FSM.Config.BlocksPerHalvening
+	if n.c.Consensus != nil { // normal operation (no chain halt): governance proposals are decided by the operator's approve list
+		n.c.Consensus.VerifSetProposalVoteDeadline(time.Now().Add(time.Hour))
+	}
 	s := &ledgerSim{n: n, run: run, out: out, small: !big64, fee: 100}
 	sc, e := n.scan()
 	if e != nil {
@@ -326,9 +330,20 @@ func (s *ledgerSim) txFor(o Op) (lib.TransactionI, lib.ErrorI) {
 	case "subsidy": // account -> the pool of a committee
 		from := s.n.accKeys[o.Who%len(s.n.accKeys)]
 		return fsm.NewSubsidyTx(from, o.Amt, uint64(1+o.To%3), nil, 1, 1, 10000, h, "")
-	case "dao": // DAO pool -> account (a governance proposal; accepted by the default proposal configuration)
+	case "dao": // DAO pool -> account (a governance proposal: on the operator's approve list)
 		from := s.n.accKeys[o.Who%len(s.n.accKeys)]
-		return fsm.NewDAOTransferTx(from, o.Amt, 1, 5000, 1, 1, 10000, h, false, "")
+		tx, e := fsm.NewDAOTransferTx(from, o.Amt, 1, 5000, 1, 1, 10000, h, false, "")
+		if e == nil {
+			s.n.approve(tx)
+		}
+		return tx, e
+	case "maxcomm": // governance lowers / raises the number of committees a validator may stake for: everybody above it is trimmed
+		from := s.n.accKeys[o.Who%len(s.n.accKeys)]
+		tx, e := fsm.NewChangeParamTxUint64(from, fsm.ParamSpaceVal, fsm.ParamMaxCommittees, o.Amt, 1, 5000, 1, 1, 20000, h, "")
+		if e == nil {
+			s.n.approve(tx)
+		}
+		return tx, e
 	}
 	return nil, lib.ErrInvalidArgument()
 }
@@ -555,7 +570,9 @@ func randomBlock(rng *rand.Rand, nv, na int) BlockSpec {
 			o.Op = "unstake"
 		case 8:
 			o.Op, o.Who, o.To, o.Amt = "send", rng.Intn(na), rng.Intn(na), 1<<40 // fails: insufficient funds
-			if k := rng.Intn(3); k == 1 {
+			if k := rng.Intn(4); k == 3 {
+				o.Op, o.Amt = "maxcomm", uint64(1+rng.Intn(3))
+			} else if k == 1 {
 				o.Op, o.Amt = "subsidy", uint64(1+rng.Intn(3000))
 			} else if k == 2 {
 				o.Op, o.Amt = "dao", uint64(1+rng.Intn(400)) // fails when the DAO pool holds less
@@ -609,6 +626,9 @@ func ledgerRandom(seed int64, runs, blocks int, big64 bool, out *json.Encoder) e
 				if b == 4 {
 					spec.DblSign, spec.DblTwo = []int{3, 2}, true
 				}
+			}
+			if genesisVariant == 2 && (b == 2 || b == 9) { // governance lowers the committee limit while delegates stake for two committees, later raises it again
+				spec = BlockSpec{Proposer: 0, Ops: []Op{{Op: "maxcomm", Who: 0, Amt: map[int]uint64{2: 1, 9: 3}[b]}}}
 			}
 			alive = s.block(spec, "")
 		}
